@@ -93,7 +93,7 @@ PATTERNS = ["", "TestAlpha", "^TestAlpha$", "TestZeta", "Alpha|Zeta", "TestAlpha
 
 class C08(CleanBase):
     pid = "C08"
-    fields = {"obs": ["outcome", "errors", "logs", "writes", "line"], "fs": "*", "clean": ["ofiles", "otests", "writes", "printed", "passed", "failed", "added", "updated", "skipped", "removed"], "readsum": "*"}
+    fields = {"obs": ["outcome", "errors", "logs", "writes", "~line"], "fs": "*", "clean": ["layout", "ofiles", "otests", "writes", "printed", "passed", "failed", "added", "updated", "skipped", "removed"], "readsum": ["ok", "agree", "~render"]}
     rule = ("white-box: Clean after histories in which some tests called snaps.Skip/Skipf/SkipNow (parents, children, siblings "
             "sharing a name prefix), all modes; black-box: a generated package (tests, subtests, prefix-related names, a skipping test, "
             "a partly skipped test, standalone and custom-named files, TestMain with Clean) recorded once and then run under REAL "
